@@ -104,7 +104,7 @@ MODULE_FAULTS = ["no_such_module_xyz.Shape", "sim.worlds.no_such_module.Shape", 
 CLASS_FAULTS = [
     MOD + ".Missing", MOD + ".helper_function", MOD + ".jsonmod", MOD + ".CONSTANT", MOD + ".TV", MOD + ".Alias", MOD + ".Plain",
     MOD + ".AbstractShape", MOD + ".NoDeserialiser", "krrood.adapters.json_serializer.SubclassJSONSerializer", "builtins.int", "builtins.len",
-    MOD + ".ForeignChild", MOD + ".UUIDChild", "os.path", "os.path.join", "typing.List", "typing.Any", "sys.maxsize", "builtins.None", MOD + ".CLASSES", MOD + ".shape", MOD + ".__name__",
+    MOD + ".ForeignChild", MOD + ".UUIDChild", MOD + ".WriteOnly", "os.path", "os.path.join", "typing.List", "typing.Any", "sys.maxsize", "builtins.None", MOD + ".CLASSES", MOD + ".shape", MOD + ".__name__",
 ]
 RETARGETS = [MOD + ".Shape", MOD + ".Poly", MOD + ".Tri", MOD + ".Group", MOD + ".Foreign", "uuid.UUID"]
 
